@@ -268,6 +268,11 @@ def check_comparison(prog, chk, body, field, variant, bb, idx, stmt, limit_tmp):
         return False
 
     a_lim, b_lim = derives_from_limit(rv["a"]), derives_from_limit(rv["b"])
+    other = rv["b"] if a_lim else rv["a"]
+    if a_lim != b_lim and const_int(other) is not None:
+        # the configured limit itself is tested against a constant: one of its values is given a meaning of its own
+        chk.bad("A7.pred", key + ":special-value", where, f"{field} is compared with the constant {const_int(other)} ({rv['op']}): a configured value of the limit is treated specially (e.g. `0` = no limit), so for that configuration the limit is not enforced at all")
+        return
     if a_lim == b_lim:
         chk.bad("A7.pred", key + ":shape", where, f"cannot identify limit side of comparison {rv['op']}")
         return
@@ -309,6 +314,21 @@ def check_comparison(prog, chk, body, field, variant, bb, idx, stmt, limit_tmp):
     if field == "loop_limit":
         cpl = op_place(counter)
         ch = body.chase(counter)
+        ei = _enumerate_index(body, counter)
+        if ei is not None and lp is not None:
+            # the index handed out by enumerate() is the number of passes completed before this one; the test sits
+            # inside the pass.  Going on after the test means one more pass is (or was) run, so the limit is exact when
+            # the pass is refused as soon as `index >= limit` - or, written on the count, `index + 1 > limit`
+            exact = (ei == 0 and op == "Ge") or (ei == 1 and op == "Gt")
+            chk.ob(
+                exact,
+                "A7.pred",
+                key + ":counter",
+                where,
+                f"the enumerate() index{' + 1' if ei else ''} is compared `{op}` {field}: a loop of exactly {field} passes is accepted, one more is refused",
+                f"loop-limit predicate is not exact: the enumerate() index{' + ' + str(ei) if ei else ''} (passes completed before this one{', plus ' + str(ei) if ei else ''}) is compared `{op}` {field} - a loop of {field} + {1 if (ei == 0 and op == 'Gt') else '?'} passes is accepted",
+            )
+            return
         if ch[0] != "place" or ch[1][1]:
             chk.undecided("A7.pred", key + ":counter", where, "the quantity compared with loop_limit is not a plain local counter (an iterator index, a field): what it counts is not decided")
             return
@@ -414,6 +434,40 @@ def _through_views(body, op):
             continue
         break
     return op
+
+
+def _enumerate_index(body, op, depth=10):
+    """0 when the operand is the index component of an `Enumerate::next()` item (through copies and casts), k when
+    it is that index plus the constant k; None otherwise"""
+    plus = 0
+    pl = op_place(op)
+    while depth > 0 and pl is not None:
+        depth -= 1
+        if pl[1]:
+            proj = [x for x in pl[1] if x != "*"]
+            d = body.single_def(pl[0])
+            if d and d[1] == R.TERM and "fn" in d[2] and Callee(d[2]["fn"]).path.endswith("Enumerate<I> as std::iter::Iterator>::next") and proj[-2:] == [".0", ".0"]:
+                return plus
+            if d and d[1] != R.TERM and d[2]["k"] == "binop" and d[2]["op"] in ("AddWithOverflow", "Add") and proj == [".0"]:
+                c = const_int(d[2]["b"])
+                if c is None:
+                    return None
+                plus += c
+                pl = op_place(d[2]["a"])
+                continue
+            return None
+        d = body.single_def(pl[0])
+        if not d or d[1] == R.TERM:
+            return None
+        rv = d[2]
+        if rv["k"] in ("use", "cast"):
+            pl = op_place(rv["op"])
+        elif rv["k"] == "binop" and rv["op"] == "Add" and const_int(rv["b"]) is not None:
+            plus += const_int(rv["b"])
+            pl = op_place(rv["a"])
+        else:
+            return None
+    return None
 
 
 def _len_subject_is_stored(body, arg_op):
